@@ -413,7 +413,7 @@ def get_map_subchunks_based_on_index_lengths(map_, invalid, chunksize):
     chunks = list()
     sm = 0
     while sm < len(map_):
-        next_sm = next_map_subchunk(map_, sm, -1, chunksize)
+        next_sm = next_map_subchunk(map_, sm, invalid, chunksize)
         chunks.append((sm, next_sm))
         sm = next_sm
     return chunks
@@ -448,8 +448,9 @@ def ordered_map_valid_stream(data_field, map_field, result_field,
         for sm_start, sm_end in sub_map_chunks:
             d_limits = get_valid_value_extents(map_, sm_start, sm_end, invalid)
             if d_limits[0] == invalid:
-                # no unfiltered values in this chunk so just assign empty entries to the result field
-                result_data.fill(0)
+                # no unfiltered values in this sub-chunk so just assign empty entries to its part
+                # of the result buffer (the rest of the buffer holds earlier sub-chunks' results)
+                result_data[sm_start:sm_end] = empty_value
             else:
                 values = data_field.data[d_limits[0]:d_limits[1]+1]
                 _ = ordered_map_valid_partial(values, map_, sm_start, sm_end, d_limits[0],
